@@ -61,6 +61,9 @@ func vhMintQuoteStep(mode int, nSigs, nProofs int) {
 	v.SqlSymRows(raw, "proofs", nProofs)
 	issued, redeemed := env.balanceZ(nSigs, nProofs)
 	v.Assume(v.ZLe(redeemed, issued)) // ledger invariant (C02): never more redeemed than issued
+	// stated bound (DESIGN.md C16, R1): everything ever issued is below 2^62 sat (the total bitcoin supply is < 2^51 sat);
+	// without it the Go-side sums over keysets could exceed 2^63, which no reachable ledger does
+	v.Assume(v.ZLt(issued, v.ZU(1<<62)))
 	balance := v.ZSub(issued, redeemed)
 	amount := v.U64("amount")
 	req := nut04.PostMintQuoteBolt11Request{Amount: amount, Unit: v.PickStr(v.U64("unit"), "sat", "usd", "")}
@@ -102,7 +105,8 @@ func vhMintQuoteStep(mode int, nSigs, nProofs int) {
 	}
 }
 
-func VHarnessMintQuoteC16() { vhMintQuoteStep(vhC16|vhC02, 2, 1) }
+func VHarnessMintQuoteC16()      { vhMintQuoteStep(vhC16|vhC02, 1, 1) }
+func VHarnessMintQuoteC16Wide()  { vhMintQuoteStep(vhC16|vhC02, 2, 1) }
 func VHarnessMintQuoteC06() { vhMintQuoteStep(vhC06, 1, 1) }
 
 // One RequestMeltQuote with a real invoice (or garbage), optional MPP, arbitrary limits and pre-existing quotes.
